@@ -149,6 +149,54 @@ def difference_vector_unit(kind, coords="cartesian"):
     return unit
 
 
+def random_point_unit(kind, avoid_center):
+    """SphericalSymGridBase.get_random_point (grid coordinates): whatever numbers the generator returns within the
+    requested intervals, the radius lies inside the grid, at least boundary_distance away from the outer boundary and,
+    with avoid_center, from the inner one (so the point is reported as contained)"""
+    from ..values import POW_FN, SQRT_FN
+
+    dim = 2 if kind == "polar" else 3
+
+    def unit(U):
+        def body(it):
+            r_in, r_out, bd = z3.Real("r_inner"), z3.Real("r_outer"), z3.Real("boundary_distance")
+            it.ctx.assume(z3.And(r_in >= 0, r_out > r_in, bd >= 0))
+            g = _grid_instance(it, "pde.grids.spherical", "PolarSymGrid" if kind == "polar" else "SphericalSymGrid", {"axes_bounds": ((r_in, r_out),), "dim": dim, "num_axes": 1})
+            draws = []
+
+            def uniform(a, b):
+                x = z3.Real(f"draw{len(draws)}")
+                draws.append((x, to_z3(a), to_z3(b)))
+                it.ctx.assume(z3.And(x >= to_z3(a), x < to_z3(b)))
+                return x
+
+            gen = Instance(None, {"uniform": uniform}, name="generator")
+            it.stub_modules["numpy"].attrs["random"] = Instance(None, {"default_rng": lambda x=None: gen}, name="np.random")
+            r = it.call(it.getattr(g, "get_random_point"), [], {"boundary_distance": bd, "coords": "grid", "avoid_center": avoid_center})
+            return r, draws, r_in, r_out, bd
+
+        for p, res in enumerate(explore_paths(U, body)):
+            P = prem_of(res.ctx)
+            nm = f"path{p}"
+            if res.outcome == "raise":
+                U.prove(f"{nm}.raises_only_when_no_radius_is_admissible", P, z3.And(z3.BoolVal(res.exc.exc_type == "RuntimeError"),
+                        z3.Real("r_outer") - z3.Real("boundary_distance") <= z3.Real("r_inner") + (z3.Real("boundary_distance") if avoid_center else 0)))
+                continue
+            r, draws, r_in, r_out, bd = res.value
+            rad = to_z3(r.read((0,))) if hasattr(r, "read") else to_z3(r)
+            x = draws[0][0]
+            root = SQRT_FN(x) if dim == 2 else POW_FN(x, z3.RealVal(1) / 3)
+            root_def = [root >= 0, (root * root == x) if dim == 2 else (root * root * root == x)]
+            U.prove(f"{nm}.radius_inside_the_grid", P + root_def, z3.And(rad >= r_in, rad <= r_out))
+            U.prove(f"{nm}.radius_keeps_the_distance_from_the_outer_boundary", P + root_def, rad <= r_out - bd)
+            if avoid_center:
+                U.prove(f"{nm}.radius_keeps_the_distance_from_the_inner_boundary", P + root_def, rad >= r_in + bd)
+            U.prove(f"{nm}.one_draw_for_the_radius", P, z3.BoolVal(len(draws) == 1))
+        U.assume_note("x ** (1/dim) is the non-negative real root of x >= 0 (axiom: root >= 0, root^dim = x)")
+
+    return unit
+
+
 def lemma_wrap(U):
     d, L = z3.Reals("d L")
     w = lambda x: x - z3.ToReal(z3.ToInt((x + L / 2) / L)) * L
@@ -228,6 +276,7 @@ UNITS = [
     ("difference_vector[cartesian2,coords=grid]", difference_vector_unit("cartesian2", "grid")),
     ("difference_vector[cartesian2,coords=cell]", difference_vector_unit("cartesian2", "cell")),
     ("difference_vector[cylindrical]", difference_vector_unit("cylindrical")),
+    *[(f"get_random_point[{k},avoid_center={a}]", random_point_unit(k, a)) for k in ("polar", "spherical") for a in (False, True)],
     ("lemma.wrap", lemma_wrap),
     ("transform", transform_unit),
     ("volume_from_radius", volume_from_radius_unit),
